@@ -23,6 +23,13 @@ type FileCase struct {
 	Stale      string            `json:"stale"` // "" (absent) or the content of a pre-existing <file>.vored
 	HasStale   bool              `json:"has_stale"`
 	Bystanders map[string]string `json:"bystanders,omitempty"`
+	// More (optional): further searched files, passed to RunFiles after input.txt
+	More []NamedContent `json:"more,omitempty"`
+}
+
+type NamedContent struct {
+	Name    string `json:"name"`
+	Content string `json:"content"`
 }
 
 func modeOf(s string) engine.ReplaceMode {
@@ -37,15 +44,19 @@ func modeOf(s string) engine.ReplaceMode {
 
 func snapshotDir(dir string) map[string]string {
 	out := map[string]string{}
-	ents, _ := os.ReadDir(dir)
-	for _, e := range ents {
-		if e.IsDir() {
-			out[e.Name()+"/"] = ""
-			continue
+	filepath.Walk(dir, func(p string, info os.FileInfo, err error) error {
+		if err != nil || p == dir {
+			return nil
 		}
-		data, _ := os.ReadFile(filepath.Join(dir, e.Name()))
-		out[e.Name()] = string(data)
-	}
+		rel, _ := filepath.Rel(dir, p)
+		if info.IsDir() {
+			out[rel+"/"] = ""
+			return nil
+		}
+		data, _ := os.ReadFile(p)
+		out[rel] = string(data)
+		return nil
+	})
 	return out
 }
 
@@ -108,8 +119,15 @@ func checkFileCase(c FileCase) (sig, what string, discard bool, nmatch int, lenD
 		return "compile-error", c.Src, false, 0, false
 	}
 	isReplace := strings.HasPrefix(c.Src, "replace") || strings.Contains(c.Src, " replace ")
+	searched := []NamedContent{{Name: "input.txt", Content: c.Content}}
+	paths := []string{path}
+	for _, m := range c.More {
+		os.WriteFile(filepath.Join(dir, m.Name), []byte(m.Content), 0o644)
+		searched = append(searched, m)
+		paths = append(paths, filepath.Join(dir, m.Name))
+	}
 	before := snapshotDir(dir)
-	res := RunFilesSafe(v, []string{path}, modeOf(c.Mode), vmLimitFile)
+	res := RunFilesSafe(v, paths, modeOf(c.Mode), vmLimitFile)
 	c06runs++
 	if c06runs%100 == 0 {
 		runtime.GC()
@@ -121,49 +139,58 @@ func checkFileCase(c FileCase) (sig, what string, discard bool, nmatch int, lenD
 		return res.Panic.Sig(), fmt.Sprintf("%s on a %d-byte file in mode %s: RunFiles panicked: %s", c.Src, len(c.Content), c.Mode, res.Panic.Sig()), false, 0, false
 	}
 	after := snapshotDir(dir)
-	// the splice, recomputed from the returned matches
-	var b strings.Builder
-	last := 0
-	for i, m := range res.Matches {
-		s, e := m.Offset.Start, m.Offset.End
-		if s < last || e > len(c.Content) || s > e {
-			return "bad-offsets", fmt.Sprintf("%s: match %d has offsets [%d,%d) (previous end %d, size %d)", c.Src, i, s, e, last, len(c.Content)), false, 0, false
+	// the splice of every searched file, recomputed from the returned matches
+	desc := fmt.Sprintf("%s on %s (+%d more files) in mode %s (stale .vored: %v)", c.Src, clip(c.Content), len(c.More), c.Mode, c.HasStale)
+	splices := map[string]string{}
+	claimed := 0
+	for fi, sf := range searched {
+		var b strings.Builder
+		last := 0
+		for i, m := range res.Matches {
+			if m.Filename != paths[fi] {
+				continue
+			}
+			claimed++
+			s, e := m.Offset.Start, m.Offset.End
+			if s < last || e > len(sf.Content) || s > e {
+				return "bad-offsets", fmt.Sprintf("%s: match %d has offsets [%d,%d) (previous end %d, size %d)", c.Src, i, s, e, last, len(sf.Content)), false, 0, false
+			}
+			b.WriteString(sf.Content[last:s])
+			b.WriteString(m.Replacement.GetValueOrDefault(""))
+			if len(m.Replacement.GetValueOrDefault("")) != e-s {
+				lenDiff = true
+			}
+			last = e
 		}
-		b.WriteString(c.Content[last:s])
-		b.WriteString(m.Replacement.GetValueOrDefault(""))
-		if len(m.Replacement.GetValueOrDefault("")) != e-s {
-			lenDiff = true
-		}
-		last = e
+		b.WriteString(sf.Content[last:])
+		splices[sf.Name] = b.String()
 	}
-	b.WriteString(c.Content[last:])
-	splice := b.String()
-	desc := fmt.Sprintf("%s on %s in mode %s (stale .vored: %v)", c.Src, clip(c.Content), c.Mode, c.HasStale)
+	if claimed != len(res.Matches) {
+		return "foreign-filename", fmt.Sprintf("%s: %d of %d matches carry a filename that is not one of the searched files", desc, len(res.Matches)-claimed, len(res.Matches)), false, 0, false
+	}
 	if !isReplace || c.Mode == "NOTHING" {
 		if d := diffSnap(before, after, nil); d != "" {
 			return "file-touched", desc + ": no file may change, but " + d, false, len(res.Matches), lenDiff
 		}
 		return "", "", false, len(res.Matches), lenDiff
 	}
-	switch c.Mode {
-	case "NEW":
-		if d := diffSnap(before, after, map[string]bool{"input.txt.vored": true}); d != "" {
-			return "file-touched", desc + ": only input.txt.vored may change, but " + d, false, len(res.Matches), lenDiff
+	allowed := map[string]bool{}
+	for _, sf := range searched {
+		target := sf.Name
+		if c.Mode == "NEW" {
+			target = sf.Name + ".vored"
 		}
-		got, ok := after["input.txt.vored"]
+		allowed[target] = true
+		got, ok := after[target]
 		if !ok {
-			return "output-missing", desc + ": input.txt.vored was not created", false, len(res.Matches), lenDiff
+			return "output-missing", desc + ": " + target + " was not created", false, len(res.Matches), lenDiff
 		}
-		if got != splice {
-			return "splice-mismatch", fmt.Sprintf("%s: input.txt.vored holds %s, the splice of the %d reported matches is %s", desc, clip(got), len(res.Matches), clip(splice)), false, len(res.Matches), lenDiff
+		if got != splices[sf.Name] {
+			return "splice-mismatch", fmt.Sprintf("%s: %s holds %s, the splice of the reported matches is %s", desc, target, clip(got), clip(splices[sf.Name])), false, len(res.Matches), lenDiff
 		}
-	case "OVERWRITE":
-		if d := diffSnap(before, after, map[string]bool{"input.txt": true}); d != "" {
-			return "file-touched", desc + ": only input.txt may change, but " + d, false, len(res.Matches), lenDiff
-		}
-		if after["input.txt"] != splice {
-			return "splice-mismatch", fmt.Sprintf("%s: input.txt holds %s, the splice of the %d reported matches is %s", desc, clip(after["input.txt"]), len(res.Matches), clip(splice)), false, len(res.Matches), lenDiff
-		}
+	}
+	if d := diffSnap(before, after, allowed); d != "" {
+		return "file-touched", desc + ": only the " + c.Mode + " targets may change, but " + d, false, len(res.Matches), lenDiff
 	}
 	return "", "", false, len(res.Matches), lenDiff
 }
@@ -251,6 +278,12 @@ func TestC06(t *testing.T) {
 		if rapid.Bool().Draw(t, "bystanders") {
 			c.Bystanders = map[string]string{"other.txt": "ab 12 x", "input.txt.bak": c.Content, "input.tx": "ab"}
 		}
+		if rapid.IntRange(0, 3).Draw(t, "morefiles") == 0 {
+			c.More = append(c.More, NamedContent{Name: "second.txt", Content: genContent(t, fileBodyHit[body])})
+			if rapid.Bool().Draw(t, "third") {
+				c.More = append(c.More, NamedContent{Name: "third.md", Content: rapid.SampledFrom([]string{"", "ab", "a1 ab\n12 xy é"}).Draw(t, "thirdc")})
+			}
+		}
 		st.Eval()
 		SetInflight(func() string { return jsonStr(Failure{Property: "C06", Kind: "file", Case: c}) })
 		sig, what, discard, n, lenDiff := checkFileCase(c)
@@ -266,6 +299,9 @@ func TestC06(t *testing.T) {
 			Fail(t, Failure{Property: "C06", Kind: "file", What: what, Case: c, Sig: sig})
 		}
 		st.Count("mode_" + c.Mode)
+		if len(c.More) > 0 {
+			st.Count("several_files")
+		}
 		if c.HasStale {
 			st.Count("stale_present")
 			if len(c.Stale) > len(c.Content) {
